@@ -91,6 +91,12 @@ def handleName : List String → Option String
     let n ← u128? n
     let r ← bool? r
     some (toString (Rune.checkReserved n r))
+  | ["spaced.oracle.strrt", h, n, sp, printed] => do
+    let s ← textArg h
+    let n ← u128? n
+    let sp ← u32? sp
+    let printed ← textArg printed
+    some (toString (SpacedRune.checkStringRoundTrip s n sp printed))
   | ["spaced.oracle.rt", n, sp, printed, back] => do
     let n ← u128? n
     let sp ← u32? sp
